@@ -24,7 +24,7 @@ observable.  NOT decided: that results equal those of a reference ordered map (v
 ASSUMPTIONS = ['the Marker implementation is consistent (is_erased after mark_erased, cmp a total order)',
                'C15: SlidingDeque behaves as a deque (its own rules)']
 
-FLOORS = {'R16.1': 6, 'R16.2': 2, 'R16.3': 5, 'R16.4': 3}
+FLOORS = {'R16.1': 6, 'R16.2': 2, 'R16.3': 6, 'R16.4': 3}
 
 SD = 'sliding_deque::sorted_deque::SortedDeque'
 SL = 'sliding_deque::sliding_deque::SlidingDeque'
@@ -221,6 +221,14 @@ def r16_3(cx):
     """ends are never tombstoned: mark_erased only for a live middle item; end items go through pop_first/pop_last"""
     m = M(cx)
     fn = cx.prog.fn(SD + '::remove')
+    # `len() - 1` (the index of the last item) is computed only once an item has been found, i.e. the deque is
+    # not empty: hoisted above the lookup it underflows on an empty deque
+    subs = [pos for pos, st in fn.statements() if st['k'] == 'assign' and st['rv']['k'] == 'binop' and st['rv']['op'].startswith('Sub')
+            and fn.rvalue_expr(st['rv']).b.is_const_int(1) and is_call(fn.rvalue_expr(st['rv']).a, 'len')]
+    for k, pos in enumerate(subs):
+        found = any((o := some_of(e, v)) is not None and o.has_call('find_index') for e, v, ed in fn.facts_at(pos.bb))
+        cx.check(found, 'last-index-after-found#%d' % k, fn, fn.loc(pos.bb, pos.idx), 'len() - 1 only where find_index returned Some (the deque is not empty)',
+                 fail_detail='len() - 1 is computed before an item is known to exist: remove() on an empty deque underflows (panics in checked builds)')
     marks = list(fn.calls('mark_erased'))
     cx.require(len(marks) == 1, 'remove no longer has exactly one mark_erased call')
     mk = marks[0]
@@ -303,4 +311,10 @@ def r16_4(cx):
              fail_detail='push_back is reachable without the ordering assertion: %s' % fn.show_path(fn.path(0, [p.bb], cut_edges=cut)))
 
 
-RULES = [('R16.1', r16_1), ('R16.2', r16_2), ('R16.3', r16_3), ('R16.4', r16_4)]
+def r16_5(cx):
+    """what the sorted deque stands on: the sliding deque underneath keeps its invariant and its containers delegate (R15.1-R15.7)"""
+    from . import c15
+    compose(cx, [('R15.1', c15.r15_1), ('R15.2', c15.r15_2), ('R15.3', c15.r15_3), ('R15.4', c15.r15_4), ('R15.5', c15.r15_5), ('R15.6', c15.r15_6), ('R15.7', c15.r15_7)])
+
+
+RULES = [('R16.1', r16_1), ('R16.2', r16_2), ('R16.3', r16_3), ('R16.4', r16_4), ('R16.5', r16_5)]
